@@ -252,6 +252,31 @@ def compare_function(E, name):
                         L.call("vk_preparedpair_init", pp, ab, pb, 0xEE)
                         res.append(L.out(fn, 576, ap, ffi.sz(1), pp, ffi.sz(1)))
                     eq(res[0], res[1])
+        if name == "bls12_381_pairing_sum":
+            # the pair counts are arguments too: every (n affine, 0), (0, n prepared) for n = 0..44 and a few mixed counts (same arrays to both sides)
+            sa, sp = L.size["affinepair"], L.size["preparedpair"]
+            nmax = 44
+            a_pts = [(A1[i % len(A1)], A2[(i // 2) % len(A2)]) for i in range(nmax)]
+            preps = {}
+            for counts in [(k, 0) for k in range(nmax + 1)] + [(0, k) for k in range(1, nmax + 1)] + [(3, 20), (20, 3), (21, 40), (40, 40)]:
+                res = []
+                for fn in (C, "vk_pairing_product"):
+                    keep = []
+                    abuf = L.buf(max(1, sa * counts[0]))
+                    pbuf = L.buf(max(1, sp * counts[1]))
+                    for i in range(counts[0]):
+                        ab, bb = L.buf(len(a_pts[i][0]), a_pts[i][0]), L.buf(len(a_pts[i][1]), a_pts[i][1])
+                        keep += [ab, bb]
+                        L.f("vk_affinepair_init")(ctypes.byref(abuf, sa * i), ab, bb, 0xEE)
+                    for i in range(counts[1]):
+                        a, b = a_pts[(i + 1) % nmax]
+                        if b not in preps:
+                            preps[b] = L.buf(L.size["g2prepared"], L.out("vk_g2prepared_prepare", L.size["g2prepared"], b))
+                        ab = L.buf(len(a), a)
+                        keep.append(ab)
+                        L.f("vk_preparedpair_init")(ctypes.byref(pbuf, sp * i), ab, preps[b], 0xEE)
+                    res.append(L.out(fn, 576, abuf if counts[0] else None, ffi.sz(counts[0]), pbuf if counts[1] else None, ffi.sz(counts[1])))
+                eq(res[0], res[1], "pair counts %s" % (counts,))
         return n[0], msgs
     if name == "bls12_381_zp_from_hash":
         for h in (b"\0" * 32, b"\xff" * 32, bytes(range(32)), ref.r.to_bytes(32, "big")):
